@@ -14,7 +14,7 @@ var astTypes = map[string]reflect.Type{}
 
 func init() {
 	for _, v := range []interface{}{
-		Lit{}, Var{}, Bin{}, Not{}, Call{}, Arr{}, Idx{}, Paren{}, FnLit{},
+		Lit{}, Var{}, Bin{}, Not{}, Call{}, Arr{}, Idx{}, Paren{}, FnLit{}, Hash{},
 		Text{}, Emit{}, EmitIf{}, EmitFor{}, Code{}, Comment{},
 		ExprS{}, LetS{}, AssignS{}, ReturnS{}, BreakS{}, ContinueS{}, IfS{}, ForS{},
 		If{}, ElseIf{}, For{},
